@@ -76,7 +76,7 @@ def stream_shape_problem(h, n, stream):
   # sampling without replacement (ShuffleBatch.tla, WindowsArePermutations): every complete window of N draws is a permutation
   # of the client's examples, the draws of the last, incomplete window are distinct
   flat = [i for b in stream for i in b]
-  for w0 in range(0, len(flat), n):
+  for w0 in range(0, len(flat), max(n, 1)):
     win = flat[w0:w0 + n]
     if len(set(win)) != len(win) or any(not 1 <= i <= n for i in win):
       return f'draws {w0 + 1}..{w0 + len(win)} of the stream are {win}: not a draw without replacement from the {n} examples'
